@@ -366,6 +366,7 @@ var loopPhiInit = map[string]int64{}
 var startPhiAtoms = map[string]map[string]int64{}
 
 func notePhis(e *Env) {
+	noteBuilderFields(e)
 	for _, b := range e.Fn.Blocks {
 		for _, in := range b.Instrs {
 			ph, ok := in.(*ssa.Phi)
@@ -695,6 +696,8 @@ func parserTables(c *Ctx, penv *Env) (map[string]roleTable, []string) {
 					var idx ssa.Value
 					var low ssa.Value
 					var ve *Env
+					forceSender := false
+					var lowOf ssa.Value
 					var walk func(we *Env, v ssa.Value, d int)
 					walk = func(we *Env, v ssa.Value, d int) {
 						if d > 8 || idx != nil || low != nil {
@@ -719,6 +722,19 @@ func parserTables(c *Ctx, penv *Env) (map[string]roleTable, []string) {
 								idx, ve = y, we
 								return
 							}
+							// a field of a builder object that is assigned twice (a default, and an argument when sender ==
+							// receiver): the argument, on the side on which that assignment runs
+							if obj, sub, sts := we.ctorObjectField(y); obj != nil && len(sts) >= 2 {
+								for _, st := range sts {
+									if _, ok := argIndexLE(sub, st.Val); ok {
+										idx, ve = st.Val, sub
+										if _, so := sub.CutAt(st, sndRcv, nil); so {
+											forceSender = true
+										}
+										return
+									}
+								}
+							}
 						case *ssa.Convert:
 							walk(we, y.X, d+1)
 						case *ssa.Phi:
@@ -741,6 +757,7 @@ func parserTables(c *Ctx, penv *Env) (map[string]roleTable, []string) {
 							if bi, ok := y.Call.Value.(*ssa.Builtin); ok && bi.Name() == "append" {
 								if sl, ok := y.Call.Args[1].(*ssa.Slice); ok && sl.Low != nil {
 									low, ve = sl.Low, we
+									lowOf = sl
 								}
 								return
 							}
@@ -759,6 +776,11 @@ func parserTables(c *Ctx, penv *Env) (map[string]roleTable, []string) {
 						l, _ = argIndexLE(ve, idx)
 					case low != nil:
 						l = ve.LE(low)
+						if sl, ok := lowOf.(*ssa.Slice); ok {
+							if _, _, off, ok := ve.sliceBase(sl.X, 0); ok {
+								l = off.plus(l) // a re-slice of a part of the arguments: absolute position
+							}
+						}
 					default:
 						continue
 					}
@@ -767,7 +789,7 @@ func parserTables(c *Ctx, penv *Env) (map[string]roleTable, []string) {
 						sides = []string{"sender"} // RcvAddr is taken from the arguments only when sender == receiver
 					}
 					_, senderOnly := e.CutAt(x, sndRcv, nil)
-					if senderOnly {
+					if senderOnly || forceSender {
 						sides = []string{"sender"}
 					}
 					for _, side := range sides {
@@ -1258,4 +1280,55 @@ func parserRoutineFor(p *Prog, name string) *Env {
 		}
 	}
 	return nil
+}
+
+// noteBuilderFields: a field of an object this function builds that is assigned two constants — a default, and another value
+// on the branch taken only when sender == receiver — is a start index in disguise: its value on each side.
+func noteBuilderFields(e *Env) {
+	type key struct {
+		al *ssa.Alloc
+		f  int
+	}
+	stores := map[key][]*ssa.Store{}
+	for _, b := range e.Fn.Blocks {
+		for _, in := range b.Instrs {
+			st, ok := in.(*ssa.Store)
+			if !ok {
+				continue
+			}
+			fa, ok := st.Addr.(*ssa.FieldAddr)
+			if !ok {
+				continue
+			}
+			al, ok := fa.X.(*ssa.Alloc)
+			if !ok {
+				continue
+			}
+			if _, isK := constInt(st.Val); !isK {
+				continue
+			}
+			stores[key{al, fa.Field}] = append(stores[key{al, fa.Field}], st)
+		}
+	}
+	sndRcv := func(f Fact) bool {
+		return !f.Lin && f.Pos && strings.HasPrefix(f.Atom, "eq(") && strings.Contains(f.Atom, "P:sndAddr") && strings.Contains(f.Atom, "P:rcvAddr")
+	}
+	for k, sts := range stores {
+		if len(sts) != 2 {
+			continue
+		}
+		vals := map[string]int64{}
+		for _, st := range sts {
+			v, _ := constInt(st.Val)
+			if _, so := e.CutAt(st, sndRcv, nil); so {
+				vals["sender"] = v
+			} else {
+				vals["destination"] = v
+			}
+		}
+		if len(vals) == 2 {
+			atom := "*" + e.Term(k.al) + "." + fieldName(k.al.Type(), k.f)
+			startPhiAtoms[atom] = vals
+		}
+	}
 }
